@@ -147,6 +147,29 @@ _r6 = {
 }
 for _k, _v in _r6.items():
     _borrow[_k] = (_borrow.get(_k, "") + " " + _v).strip()
+# rules added after the seventh seeding round (DESIGN.md 10.12)
+_r7 = {
+ "C02": "Also: the max/min loops read the elements of the slice their counter runs over; the loop over the touched slots is not left by a return that reports success.",
+ "C03": "Also: below Update/UpdateMany/UpdatePoint(s)ForArchive the package's clock variable is read at exactly one place and time.Now is never called directly.",
+ "C04": "Also: below Fetch/FetchFromArchive the clock is read at exactly one place.",
+ "C05": "Also: every constant that can reach the flag of os.OpenFile has access mode O_RDWR (a read-only handle makes Sync succeed without writing).",
+ "C07": "Also: the number leadingInt returns reaches ParseDuration's guards without a narrowing conversion; no entry point sorts an archive list.",
+ "C08": "Also evaluates the archiveUpdateMany obligations of C06.R6; Parse compares From with Until only when -until was given.",
+ "C09": "Also: Parse of diff compares From with Until only when -until was given.",
+ "C10": "Also evaluates C18.R1; the sum of archive k is stored at index k of a list as long as the files' lists; Parse of sum compares From with Until only when -until was given.",
+ "C11": "Also: sum-diff makes the window/step agreement test of its siblings before diffing; Parse of sum-copy and sum-diff does not refuse a window whose until is still to default.",
+ "C12": "Also evaluates C14.R1 (encoder and decoder agree field by field); an error response always carries a body.",
+ "C13": "Also: a Close on the handle's file field in Open/Create comes after the opened file was stored there.",
+ "C14": "Also: the remainder a decoder returns is its parameter advanced by low-bound slicing and nested decoders only, never cut at an upper bound.",
+ "C15": "Also (C15.R8): every non-constant make length or capacity in package cmd is built from len(...) and constants (randomPoints excepted, with its reason).",
+ "C16": "Also evaluates C17.R3; the exemption of the dropped FlagSet.Parse result holds only while every flag set is created with flag.ExitOnError (checked).",
+ "C17": "Also evaluates C13.R2 (the blocking exclusive lock serialises overlapping requests on one file); errgroup workers are started with Go, never TryGo.",
+ "C18": "Also: view-raw -sort sorts every list (no way round sort.Stable in the loop); Parse of view and view-raw compares From with Until only when -until was given.",
+ "C19": "Also evaluates the aggregationMethodValue obligations of C02.R2; ParseArchiveInfoList keeps the written order; the parsed number is not narrowed before its guards.",
+ "C20": "Also: a number parsed for a float32 option is parsed with bitSize 32.",
+}
+for _k, _v in _r7.items():
+    _borrow[_k] = (_borrow.get(_k, "") + " " + _v).strip()
 for _k, _v in _borrow.items():
     _extra[_k] = (_extra.get(_k, "") + " " + _v).strip()
 _re = "Every property also evaluates <id>.RE: no failure is turned into success in the functions reachable from its entry points."
